@@ -309,6 +309,33 @@ func CheckC08(c *C08Case, st *Stats) error {
 	if deep && nonRootHit {
 		st.MarkNonTrivial()
 	}
+	// cloning again after the history of mutations: a deep copy of the container as it is NOW
+	for side := range sides {
+		now, err := TakeIdentSnap(sides[side])
+		if err != nil {
+			return err
+		}
+		var again any
+		if p, panicked := catch(func() { again = cloneOf(sides[side]) }); panicked {
+			return errf("Clone of the %s after the mutations panicked: %v", names[side], p)
+		}
+		as, err := TakeIdentSnap(again)
+		if err != nil {
+			return err
+		}
+		if !EqVBits(as.Tree, now.Tree) {
+			return errf("a Clone taken after the mutations does not have the current content of the %s: %s vs %s", names[side], as.Tree.Show(), now.Tree.Show())
+		}
+		have := map[any]bool{}
+		for _, id := range now.IDs {
+			have[id] = true
+		}
+		for _, id := range as.IDs {
+			if have[id] {
+				return errf("a Clone taken after the mutations shares a container with the %s: %s", names[side], showAny(id))
+			}
+		}
+	}
 	return nil
 }
 
